@@ -130,4 +130,8 @@ FINDINGS = [
               "(recursive or shared types): A ::= SEQUENCE { n A OPTIONAL, d OCTET STRING (SIZE (3)) } value {n: {n: {d: 2 octets}, d: ..}, d: ..} "
               "reports 'A.n.d' instead of 'A.n.n.d' (ErrorWithLocation.add_location skips an element equal to the last one, codecs/__init__.py:63-72)",
          witness=dict(kind='custom', name='error_path_repeated_name')),
+    dict(key='xer-carriage-return-not-escaped', props=['C02'],
+         text="XER: a carriage return (legal in XML 1.0) inside a character string is written raw instead of as &#13;, and XML line-end "
+              "normalisation turns it into a line feed: IA5String 'a\\rb' decodes as 'a\\nb' (ElementTree does not escape CR in text)",
+         witness=dict(kind='roundtrip', spec=HDR + 'A ::= IA5String' + END, codec='xer', type='A', value='a\rb')),
 ]
